@@ -17,6 +17,7 @@ type sgen struct {
 	et    bool
 	rbc   int
 	hist  map[string]int
+	big   bool
 }
 
 func (g *sgen) emit(s string) {
@@ -61,6 +62,9 @@ func (g *sgen) trafficProg() string {
 			hops = append(hops, "write:"+g.payload(g.size()))
 		case 8:
 			k := 1 + g.r.Intn(4)
+			if g.big && g.r.Intn(3) == 0 {
+				k = g.r.Pick(1023, 1024, 1025, 1030)
+			}
 			segs := make([]string, k)
 			for j := range segs {
 				segs[j] = g.payload(1 + g.r.Intn(40))
@@ -69,7 +73,12 @@ func (g *sgen) trafficProg() string {
 		case 9:
 			hops = append(hops, fmt.Sprintf("writeto:%d:nil,%d:nil", g.size(), 1<<30))
 		case 10:
-			hops = append(hops, fmt.Sprintf("readfrom:%d:eof", g.size()), "flush")
+			n := g.size()
+			if g.big {
+				hops = append(hops, fmt.Sprintf("readbulk:%d", g.r.Pick(5000, 100000, 300000, 1000000)), "flush")
+			} else {
+				hops = append(hops, fmt.Sprintf("readfrom:%d:eof", n), "flush")
+			}
 		case 11:
 			hops = append(hops, "asyncwrite:"+g.payload(g.size()))
 		}
@@ -82,8 +91,6 @@ func (g *sgen) trafficProg() string {
 		hops = append(hops, "elclose")
 	case 2:
 		hops = append(hops, "close")
-	case 3:
-		hops = append(hops, "wake")
 	}
 	return strings.Join(append(hops, "ret:"+ret), ";")
 }
@@ -114,6 +121,7 @@ func (g *sgen) connect() {
 func (g *sgen) stream(id int, faults bool) {
 	fmt.Fprintf(&g.b, "case %d\n", id)
 	g.nconn, g.live = 0, nil
+	g.big = id%10 == 9
 	mode := g.r.Pick(0, 0, 1, 2)
 	chunk := 0
 	g.et = mode > 0
@@ -201,7 +209,7 @@ func (g *sgen) stream(id int, faults bool) {
 		g.emit("poll")
 	}
 	for _, cid := range g.live {
-		g.emit(fmt.Sprintf("peerread %s 1000000", cid))
+		g.emit("drain " + cid)
 	}
 	g.emit("stop")
 	g.emit("poll")
